@@ -359,6 +359,67 @@ def run(ctx: Ctx):
                  f"convert_angular_sizes_to_degrees({sizes}, {meth}) = {r} differs from element-wise resolution",
                  {"reproduce": f"AngularGrid.convert_angular_sizes_to_degrees(np.array({sizes}), '{meth}')"})
     ctx.sample({"convert": meta[0][1], "method": meta[0][0], "impl": meta[0][2]})
+
+    # ---------------- sequences of other container/dtype forms, and NON-INTEGRAL requests: a request is either rejected or gets the
+    # smallest supported value not below it (never a coarser grid than asked for, never accepted above the maximum)
+    import math as _m
+    nform = 0
+    for meth, P, _, _ in METHODS:
+        td, tn = tabs[f"{P}_DEGREES"], tabs[f"{P}_NPOINTS"]
+        ks, kd = sorted(tn), sorted(td)
+        base = [ks[1], ks[2] + 1, ks[1], ks[min(6, len(ks) - 1)] - 1, 0]
+        exp = [tn[least(ks, v)] for v in base]
+        forms = [("list", list(base)), ("tuple", tuple(base)), ("int32 array", np.array(base, dtype=np.int32)), ("uint16 array", np.array(base, dtype=np.uint16)),
+                 ("list of np.int64", [np.int64(v) for v in base]), ("read-only array", np.array(base))]
+        forms[-1][1].setflags(write=False)
+        for nm, seq in forms:
+            nform += 1
+            with warnings.catch_warnings():
+                warnings.simplefilter("ignore")
+                try:
+                    obs = [int(v) for v in AngularGrid.convert_angular_sizes_to_degrees(seq, meth)]
+                except Exception as e:  # noqa: BLE001
+                    obs = ["crash", type(e).__name__, str(e)[:60]]
+            if obs != exp:
+                ctx.fail("corr_convert", f"convert-form:{meth}:{nm}", str(obs),
+                         f"convert_angular_sizes_to_degrees({base} as {nm}, '{meth}') = {obs}; element-wise resolution gives {exp}",
+                         {"reproduce": f"AngularGrid.convert_angular_sizes_to_degrees(<{base} as {nm}>, '{meth}')"})
+        fr = [0.5, 0.75, 0.25, 0.999]
+        picks = [ks[1], ks[3], ks[min(9, len(ks) - 1)], ks[-1]]
+        for j, k0 in enumerate(picks):
+            x = k0 + fr[j]  # just above a supported size (the last one: above the maximum)
+            want_k = least(ks, _m.ceil(x))
+            want = None if want_k is None else tn[want_k]
+            d0 = kd[min(3 + 2 * j, len(kd) - 1)] if j < 3 else kd[-1]
+            y = d0 + fr[j]
+            want_d = least(kd, _m.ceil(y))
+            jobs = [("convert_angular_sizes_to_degrees(float array)", lambda: AngularGrid.convert_angular_sizes_to_degrees(np.array([ks[0], x, ks[0]]), meth)[1], want, x, "size"),
+                    ("convert_angular_sizes_to_degrees(list)", lambda: AngularGrid.convert_angular_sizes_to_degrees([x], meth)[0], want, x, "size"),
+                    ("AngularGrid(size=...)", lambda: tn[AngularGrid(size=x, method=meth, cache=False).size], want, x, "size"),
+                    ("AngularGrid(degree=...)", lambda: AngularGrid(degree=y, method=meth, cache=False).degree, want_d, y, "degree")]
+            if k0 <= 1500 and j < 3:
+                jobs += [("AtomGrid(sizes=...)", lambda: AtomGrid(rg, sizes=[ks[0]] * 5 + [x], method=meth).degrees[5], want, x, "size"),
+                         ("AtomGrid(degrees=...)", lambda: AtomGrid(rg, degrees=[kd[0]] * 5 + [y], method=meth).degrees[5], want_d, y, "degree"),
+                         ("from_pruned(s_sectors=...)", lambda: AtomGrid.from_pruned(rg, 1.0, r_sectors=[0.3], s_sectors=[ks[0], x], method=meth).degrees[5], want, x, "size"),
+                         ("from_pruned(d_sectors=...)", lambda: AtomGrid.from_pruned(rg, 1.0, r_sectors=[0.3], d_sectors=[kd[0], y], method=meth).degrees[5], want_d, y, "degree")]
+            for what, build, w, req, unit in jobs:
+                nform += 1
+                ctx.case(("non-integral", meth, what, req))
+                with warnings.catch_warnings():
+                    warnings.simplefilter("ignore")
+                    try:
+                        got = int(build())
+                    except (ValueError, TypeError):
+                        continue  # rejected: fine
+                    except Exception as e:  # noqa: BLE001
+                        got = f"crash {type(e).__name__}: {str(e)[:60]}"
+                if got != w:
+                    ctx.fail("corr_convert" if "convert" in what else ("corr_atom_degrees" if "Atom" in what or "pruned" in what else "corr_built_size"),
+                             f"non-integral:{meth}:{what}:{req}", str(got),
+                             f"{what} with method='{meth}' and the non-integral {unit} request {req} is accepted and resolves to degree {got}; it must be rejected or get "
+                             f"the smallest supported grid not below the request ({'rejected: above the maximum' if w is None else 'degree ' + str(w)})",
+                             {"reproduce": f"{what} with the {unit} {req!r}, method='{meth}'"})
+    ctx.count("container_and_non_integral_requests", nform)
     ctx.cov["rule"] = ("every integer degree and size from -3 to max+50 for the 4 methods is resolved by the implementation, "
                        "run-length encoded, and each point of each run is compared with the Coq model by vm_compute (exhaustive); "
                        "distinct = runs + built grids + converter sequences")
